@@ -1,212 +1,17 @@
 import CbiVerif.PP.Macro
-/-! Model of MacroExpander.expand (stack of ExpanderHelpers, no_expand list, rescanning by splice). -/
+/-! Macro table of a platform and the result type of an expansion as the end-to-end models see it.
+
+The expander itself is `MX.cbiExpand` (`Model/MacroExpand.lean`, total, the model the C03 theorems are about); the
+end-to-end models call it through `PP.runExpandT` (`Model/ExpandPP.lean`).  The design-phase port that used to live here
+(`partial def expandLoop/collectArgs/expandCall`, `runExpand`) is now `PP/ExpandOld.lean` (`PP.Old.runExpand`) and is only
+used by the three-way cross-check of driver op `c03`. -/
 namespace CbiVerif.PP
-
-structure Helper where
-  toks : List (Option Tok)
-  pos : Nat
-  pre : Bool
-deriving Repr, Inhabited
-
-def Helper.eol (h : Helper) : Bool := h.pos ≥ h.toks.length
-
-structure XState where
-  stack : List Helper        -- head = parser_stack[-1]
-  noExp : List (Option String)   -- head = no_expand[-1]; `none` = Python's None (outermost stream, argument pre-expansion)
-deriving Repr, Inhabited
 
 abbrev Table := List (String × Macro)
 def Table.get (t : Table) (n : String) : Option Macro := (t.find? (·.1 == n)).map (·.2)
 
-inductive Sig | endOfParse | overflow | err (e : Err)
-deriving Repr, Inhabited
-
-abbrev XM := ExceptT Sig (StateM XState)
-
-def maxLevel : Nat := 200
-
-def filterSome (l : List (Option Tok)) : List Tok := l.filterMap id
-
-/-- pop(): splice the exhausted top stream into the one below, the read position ends up behind the spliced tokens -/
-def xpop : XM Unit := do
-  let st ← get
-  match st.stack with
-  | [] => throw (.err .index)
-  | [_] => throw .endOfParse
-  | top :: below :: rest =>
-    if top.pre then throw .endOfParse
-    let start := filterSome (below.toks.take below.pos)
-    let newToks := (start ++ filterSome top.toks ++ filterSome (below.toks.drop below.pos)).map some
-    set ({ stack := { below with toks := newToks, pos := start.length + (filterSome top.toks).length } :: rest, noExp := st.noExp.tail } : XState)
-
-/-- pop while the top stream is exhausted -/
-def popWhileEol : Nat → XM Unit
-  | 0 => pure ()
-  | fuel + 1 => do
-    let st ← get
-    match st.stack with
-    | [] => throw (.err .index)
-    | top :: _ => if top.eol then do xpop; popWhileEol fuel else pure ()
-
-def overflowCheck : XM Unit := do
-  let st ← get
-  if st.stack.length ≥ maxLevel then throw .overflow
-
-def xpush (toks : List Tok) (ident : String) : XM Unit := do
-  modify fun st => { stack := ⟨toks.map some, 0, false⟩ :: st.stack, noExp := some ident :: st.noExp }
-  overflowCheck
-
-def topHelper : XM Helper := do
-  match (← get).stack with
-  | [] => throw (.err .index)
-  | h :: _ => pure h
-
-def setTop (h : Helper) : XM Unit := modify fun st => { st with stack := h :: st.stack.tail }
-
-def peekTokPop : XM Tok := do
-  popWhileEol 100000
-  let h ← topHelper
-  match h.toks[h.pos]? with
-  | some (some t) => pure t
-  | _ => throw (.err .type_)       -- peeked a hole / nothing
-
-def advanceTok : XM Unit := do
-  popWhileEol 100000
-  let h ← topHelper
-  setTop { h with pos := h.pos + 1 }
-
-def consumeTok : XM Tok := do
-  popWhileEol 100000
-  let h ← topHelper
-  match h.toks[h.pos]? with
-  | some (some t) => setTop { h with toks := h.toks.set h.pos none, pos := h.pos + 1 }; pure t
-  | some none => setTop { h with pos := h.pos + 1 }; throw (.err .type_)
-  | none => throw (.err .index)
-
-def replaceTok (t : Tok) : XM Unit := do
-  popWhileEol 100000
-  let h ← topHelper
-  if h.pos < h.toks.length then setTop { h with toks := h.toks.set h.pos (some t), pos := h.pos + 1 }
-  else throw (.err .index)
-
-/-- peek_tok(): look down the stack without popping -/
-def peekTok : XM (Option Tok) := do
-  let st ← get
-  let rec go : List Helper → Bool → Option Tok
-    | [], _ => none
-    | h :: rest, _ =>
-      if h.eol then (if rest.isEmpty || h.pre then none else go rest false)
-      else match h.toks[h.pos]? with | some (some t) => some t | _ => none
-  pure (go st.stack false)
-
-def backUp : XM Unit := do
-  let h ← topHelper
-  setTop { h with pos := h.pos - 1 }
-
-def isDefined (tbl : Table) (n : String) : String := if (tbl.get n).isSome then "1" else "0"
-
-mutual
-/-- the `while True` loop of expand() -/
-partial def expandLoop (tbl : Table) : XM Unit := do
-  let ctok ← peekTokPop
-  if ctok.kind != .ident then
-    advanceTok
-    expandLoop tbl
-  else
-    let _ ← consumeTok
-    if ctok.text == "defined" then
-      let tok ← peekTok
-      match tok with
-      | none => throw (.err .type_)        -- None.token → AttributeError
-      | some tok =>
-        let ident ← (if tok.text == "(" then do
-            let _ ← consumeTok
-            let ident ← consumeTok
-            let paren ← peekTok
-            match paren with
-            | none => throw (.err .type_)
-            | some p => if p.text != ")" then throw (.err (.parse "Expected ')'")) else pure ident
-          else pure tok : XM Tok)
-        if ident.kind != .ident then throw (.err (.parse "Expected identifier after 'defined'"))
-        replaceTok ⟨.num, isDefined tbl ident.text, ident.pw, true⟩
-        expandLoop tbl
-    else
-      let st ← get
-      if !ctok.expandable || st.noExp.contains (some ctok.text) then
-        backUp
-        replaceTok { ctok with expandable := false }
-        expandLoop tbl
-      else
-        match tbl.get ctok.text with
-        | none =>
-          backUp; replaceTok ctok; expandLoop tbl
-        | some m =>
-          match m.args with
-          | some _ =>
-            let paren ← peekTok
-            if (paren.map (·.text)) != some "(" then
-              backUp; replaceTok ctok; expandLoop tbl
-            else
-              let _ ← consumeTok
-              let args ← collectArgs [] [] 1
-              let mut pre : List Arg := []
-              let mut i := 0
-              for a in args do
-                if (if m.variadic && i ≥ m.needsExp.length then m.needsExp.getLast?.getD true else (i ≥ m.needsExp.length || m.needsExp[i]!)) then
-                  let e ← expandCall tbl a true
-                  pre := pre ++ [⟨a, some e⟩]
-                else
-                  pre := pre ++ [⟨a, none⟩]
-                i := i + 1
-              let repl ← (match m.replaceFn pre with
-                | .ok r => pure r
-                | .error e => throw (.err e) : XM (List Tok))
-              let repl := match repl with | f :: r => { f with pw := ctok.pw } :: r | [] => []
-              xpush repl m.name
-              expandLoop tbl
-          | none =>
-            let repl := match m.replacement with | f :: r => { f with pw := ctok.pw } :: r | [] => []
-            xpush repl m.name
-            expandLoop tbl
-
-partial def collectArgs (args : List (List Tok)) (cur : List Tok) (depth : Nat) : XM (List (List Tok)) := do
-  let tok ← consumeTok
-  if tok.text == "," && depth == 1 then collectArgs (args ++ [cur]) [] depth
-  else if tok.text == "(" then collectArgs args (cur ++ [tok]) (depth + 1)
-  else if tok.text == ")" then
-    if depth == 1 then pure (args ++ [cur]) else collectArgs args (cur ++ [tok]) (depth - 1)
-  else collectArgs args (cur ++ [tok]) depth
-
-/-- expand(tokens, ident, pre_expand) -/
-partial def expandCall (tbl : Table) (toks : List Tok) (pre : Bool) : XM (List Tok) := do
-  overflowCheck
-  if toks.isEmpty then return toks
-  modify fun st => { stack := ⟨toks.map some, 0, pre⟩ :: st.stack, noExp := none :: st.noExp }
-  try
-    expandLoop tbl
-    return []     -- unreachable: the loop only ends by a signal
-  catch
-    | .endOfParse => do
-      let st ← get
-      match st.stack with
-      | [] => throw (.err .index)
-      | top :: rest =>
-        set ({ stack := rest, noExp := st.noExp.tail } : XState)
-        return filterSome top.toks
-    | .overflow => do
-      set ({ stack := [], noExp := [] } : XState)
-      return [⟨.num, "0", false, true⟩]
-    | e => throw e
-end
-
+/-- what an expansion yields: tokens, a Python exception, or a signal (the total model: `"ModelOutOfFuel"`) -/
 inductive XResult | ok (ts : List Tok) | error (e : Err) | sig (s : String)
 deriving Repr
-
-def runExpand (tbl : Table) (toks : List Tok) : XResult :=
-  match (expandCall tbl toks false).run.run ⟨[], []⟩ with
-  | (.ok ts, _) => .ok ts
-  | (.error (.err e), _) => .error e
-  | (.error .overflow, _) => .sig "overflow"
-  | (.error .endOfParse, _) => .sig "endOfParse"
 
 end CbiVerif.PP
